@@ -5,8 +5,11 @@ V = os.path.dirname(os.path.dirname(os.path.abspath(__file__)))
 props = [json.loads(l) for l in open(os.path.join(V, "properties.jsonl")) if l.strip()]
 ids = [p["id"] for p in props]
 checks, engines, claimed = [], [], set()
+ready = set(open(os.path.join(V, "tools", "families_ready.txt")).read().split())
 for fp in sorted(glob.glob(os.path.join(V, "specs", "*", "family.json"))):
     fam = json.load(open(fp))
+    if fam["family"] not in ready:
+        continue
     engines.append({"name": fam["family"], "path": "specs/%s" % fam["family"],
                     "serves_properties": sorted(fam["properties"]),
                     "kind_free_text": "TLA+ specification + TLC (model checking, behaviour generation, trace validation) bound to the Go code by an in-package driver injected with go test -overlay"})
